@@ -139,3 +139,17 @@ def prepare_sync(engine):
     _copy(os.path.join(VERIF, "harness", "shadow", "vbits.rs"), os.path.join(dst, "src", "vcoll.rs"))
     _copy(os.path.join(VERIF, "harness", "shadow", "sync_shim.rs"), os.path.join(dst, "src", "lib.rs"))
     _common_manifest(dst, "verif-shadow-sync")
+
+
+def prepare_canonical(engine):
+    """Single-file shadow of radicle/src/git/canonical.rs inside a shim crate (Did/Oid as 1-byte
+    ids, raw::Repository as a symbolic commit graph)."""
+    dst = os.path.join(SHADOW, "canonical")
+    src = os.path.join(REPO, "crates", "radicle", "src", "git", "canonical.rs")
+    text, _, _ = rewrite_collections(open(src).read(), "canonical.rs")
+    # add-only: constructor / accessor for the private fields (the real constructors read refs from storage)
+    text += "\n#[cfg(kani)]\nimpl Canonical {\n    pub fn verif_new(threshold: usize) -> Self { Canonical { tips: BTreeMap::new(), threshold } }\n    pub fn verif_threshold(&self) -> usize { self.threshold }\n}\n"
+    write_if_changed(os.path.join(dst, "src", "git", "canonical.rs"), text)
+    _copy(os.path.join(VERIF, "harness", "shadow", "vbits.rs"), os.path.join(dst, "src", "vcoll.rs"))
+    _copy(os.path.join(VERIF, "harness", "shadow", "canonical_shim.rs"), os.path.join(dst, "src", "lib.rs"))
+    _common_manifest(dst, "verif-shadow-canonical", deps='log = "0.4.17"\nnonempty = "0.9.0"\ngit2 = { path = "/verif/harness/shadow/shims/git2" }\n')
